@@ -353,7 +353,8 @@ def gen_dict(e, vt, d):
             return '{}'
         return '{%s%s}' % (', '.join('%s: %s' % (k, gen(e, vt, d - 1)) for k in ks), r.choice(['', ',']))
     if c == 5 and vt in ('num', 'str'):
-        return r.choice(['sorted(%s)', 'dict(%s)', 'sorted(%s, (k, v) => v)', 'sorted(%s, None, True)']) % gen_dict(e, vt, d - 1)
+        return r.choice(['sorted(%s)', 'dict(%s)', 'sorted(%s, (k, v) => v)', 'sorted(%s, None, True)', 'sorted(%s, (k, v) => v, True)', 'sorted(%s, (k, v) => k)',
+                         'sorted(%s, (k, v) => 0 - len(k), True)', 'sorted(%s, (k, v) => k + str(v))', 'sorted(%s, (k, v) => str(v) + k, False)']) % gen_dict(e, vt, d - 1)
     if c == 6:
         return '(%s if %s else %s)' % (gen_dict(e, vt, d - 1), gen_bool(e, d - 1), gen_dict(e, vt, d - 1))
     return 'dict(%s)' % gen_dict(e, vt, d - 1)
